@@ -1,29 +1,45 @@
 // counterexample for harness c13::c13_sequence_4 (property C13)
 // failed checks: [{"id": "c13::step.assertion.9", "description": "assertion failed: agrees(g, m)", "location": "src/c13.rs:215:5 in function c13::step"}]
-// native replay: native run panicked: panicked at src/c13.rs:215:5: assertion failed: agrees(g, m)
+// native replay: native run of the counterexample passed (does not reproduce)
 // re-run: /verif/bin/check C13 --replay /verif/replays/C13/c13__c13_sequence_4.rs
 // harness: c13::c13_sequence_4
 #[test]
-fn kani_concrete_playback_c13_sequence_4_114661160665629302() {
+fn kani_concrete_playback_c13_sequence_4_4032423633260483971() {
     let concrete_vals: Vec<Vec<u8>> = vec![
-        // 4093819005272326130ul
-        vec![242, 255, 255, 255, 177, 42, 208, 56],
+        // 68585242623ul
+        vec![255, 191, 255, 247, 15, 0, 0, 0],
+        // 1
+        vec![1],
+        // 0ul
+        vec![0, 0, 0, 0, 0, 0, 0, 0],
+        // -9223372036854775808
+        vec![0, 0, 0, 0, 0, 0, 0, 128],
+        // 0
+        vec![0],
         // 2
         vec![2],
-        // 2ul
-        vec![2, 0, 0, 0, 0, 0, 0, 0],
-        // -9223372036854775801
-        vec![7, 0, 0, 0, 0, 0, 0, 128],
+        // 68585242623ul
+        vec![255, 191, 255, 247, 15, 0, 0, 0],
+        // -1
+        vec![255, 255, 255, 255, 255, 255, 255, 255],
         // 1
         vec![1],
         // 0
         vec![0],
-        // 18446650995268141046ul
-        vec![246, 63, 144, 124, 88, 171, 255, 255],
-        // 2035517080408686591
-        vec![255, 255, 255, 255, 255, 155, 63, 28],
-        // 0
-        vec![0],
+        // 137371844607ul
+        vec![255, 255, 255, 251, 31, 0, 0, 0],
+        // -1
+        vec![255, 255, 255, 255, 255, 255, 255, 255],
+        // 1
+        vec![1],
+        // 3
+        vec![3],
+        // 68585259007ul
+        vec![255, 255, 255, 247, 15, 0, 0, 0],
+        // -1
+        vec![255, 255, 255, 255, 255, 255, 255, 255],
+        // 1
+        vec![1],
     ];
     kani::concrete_playback_run(concrete_vals, c13_sequence_4);
 }
